@@ -31,8 +31,8 @@ PROPS = {
                 not_covered=NOT_GEN + '; the unchecked LinkedBytes writer is decided only for the ORDER of operations in write_faststr / write_bytes / write_bytes_without_len (zero-copy branch) over assumed contracts of its raw-store primitives (unit unsafe_lb); its primitives, write_message_begin and write_field_begin (raw stores) are not decided'),
     'C03': dict(verus=THRIFT_UNITS, kani=K_SUPPORT, assumptions=A_COMMON,
                 not_covered=NOT_GEN + '; ApplicationException::{encode,decode} not yet under contract'),
-    'C04': dict(verus=THRIFT_UNITS + ['unsafe_lb'], kani=K_C11_W, assumptions=A_COMMON,
-                not_covered=NOT_GEN + '; TLengthProtocolExt/TOutputProtocolExt closure helpers (field_len!, list_len, write_list, ...) not under contract; TLengthProtocol of TCompactInputProtocol not under contract'),
+    'C04': dict(verus=THRIFT_UNITS + ['unsafe_lb'], kani=K_C11_W + ['bnd_len_ext_list'], assumptions=A_COMMON,
+                not_covered=NOT_GEN + '; TLengthProtocolExt::list_len only by a bounded Kani stand-in (3 elements); the other closure helpers (field_len!, set/map_len, write_list, ...) not under contract; TLengthProtocol of TCompactInputProtocol not under contract'),
     'C05': dict(verus=['prost'], kani=K_PB + K_PB_MORE, assumptions=A_COMMON[:1] + ['bytes 1.8.0 Buf for &[u8] / BufMut for &mut [u8] are exercised as compiled (not assumed)', 'format! on error paths is stubbed in the Kani harnesses (message text not modelled)'],
                 not_covered='generated messages; repeated/packed/map/message/group/string/bytes codecs are not yet under a harness'),
     'C06': dict(verus=['pbgen'], kani=K_PB + ['bnd_pb_merge_repeated_packed'], assumptions=A_COMMON[:1] + ['format! on error paths is stubbed in the Kani harnesses'],
@@ -60,6 +60,7 @@ def _k(kind='leaf', quick=True, bound='', timeout=None):
     return d
 
 KANI_HARNESSES = {h: _k() for h in K_SUPPORT + K_C11_W + K_C11_R + K_PB + K_PB_MORE}
+KANI_HARNESSES['bnd_len_ext_list'] = _k(kind='bounded', quick=True, bound='lists of exactly 3 i32 elements; compact and binary protocols')
 KANI_HARNESSES['bnd_pb_merge_repeated_packed'] = _k(kind='bounded', quick=False, bound='existing vector of 1 element; packed run of 1..=2 one-byte varints then one unpacked element; fixed32 packed run of 1', timeout=1500)
 KANI_HARNESSES['bnd_pb_map_len_btree+pbdef'] = dict(kind='bounded', quick=False, harness='bnd_pb_map_len_btree', args=['--features', 'pbdef'], bound='as bnd_pb_map_len_btree, pilota built with feature pb-encode-default-value')
 KANI_HARNESSES['bnd_pb_map_len_btree'] = _k(kind='bounded', bound='BTreeMap<u32,u32> with one entry, key/value < 128, tag 1..=15')
